@@ -69,6 +69,8 @@ def classify(rej, scratch=None):
             props = set()
             if "conv" in failing:
                 props |= {"C08", "C04"} if stalls else {"C04"}
+                if "convkept" not in failing:
+                    props |= {"C14"}   # only the view of a removed/reset target is wrong
             elif "cons" in failing:
                 props |= {"C06", "C08"}
             elif "late" in failing:
